@@ -139,7 +139,7 @@ func finishObl(o *Obligation, file string) {
 					o.Model = out
 				}
 			}
-			if o.Status == "unsat" || (o.Cover && o.Status == "sat") {
+			if os.Getenv("EVYVC_KEEP") == "" && (o.Status == "unsat" || (o.Cover && o.Status == "sat")) {
 				os.Remove(file)
 			}
 		}
